@@ -38,11 +38,12 @@ Fixpoint flip_at (flags : list bool) (s : list char) : list char :=
 Definition osim {A} (R : A -> A -> Prop) (o o' : option A) : Prop :=
   match o, o' with Some a, Some a' => R a a' | None, None => True | _, _ => False end.
 
-(* values: numbers, lengths and base codes are equal, every text is a case variant *)
+(* values: numbers, lengths and base codes are equal, every text is a case variant; an extended
+   identifier (first character backslash) also ends with a backslash on both sides *)
 Definition val_sim (v v' : value) : Prop :=
   match v, v' with
   | VNone, VNone => True
-  | VIdent a, VIdent a' => lsim a a'
+  | VIdent a, VIdent a' => lsim a a' /\ (hd 0 a = 92 -> last a 0 = 92 /\ last a' 0 = 92)
   | VString a, VString a' => lsim a a'
   | VBitString t l b x, VBitString t' l' b' x' => lsim t t' /\ l = l' /\ b = b' /\ lsim x x'
   | VAbsInt t n, VAbsInt t' n' => lsim t t' /\ n = n'
